@@ -7,6 +7,7 @@ import (
 	"fmt"
 	"io"
 	"os"
+	"path/filepath"
 	"strings"
 	"sync"
 	"testing"
@@ -541,6 +542,21 @@ func TestReplay(t *testing.T) {
 	}
 	if part == "formats" {
 		replayFormats(t, raw)
+		return
+	}
+	if part == "startup" {
+		// a hang at start-up is a matter of timing: the saved case is launched a number of times
+		var sc StartupCase
+		if err := json.Unmarshal(raw, &sc); err != nil {
+			t.Fatal(err)
+		}
+		root := t.TempDir()
+		for i := 0; i < 60; i++ {
+			if err := runStartup(sc, filepath.Join(root, fmt.Sprint("r", i))); err != nil {
+				drv.Fail(t, part, "", sc, "%v (launch %d of 60)", err, i+1)
+			}
+			os.RemoveAll(filepath.Join(root, fmt.Sprint("r", i)))
+		}
 		return
 	}
 	var c StreamCase
